@@ -77,6 +77,7 @@ def p_c01(tier):
     # response formatting with the capacity swept through every alignment (a value fits, the separator does not, ...): one result code per line
     sh += sw_shards("bounds", "C01", tier, 8, "--family", "format", tagp="format-align")
     sh.append(failing_events("lines-failing-events", 1, "C01", "C01"))
+    sh += sw_shards("tables", "C01", tier, 3, "--family", "firstbyte", tagp="firstbyte")
     # the command list (several units, then the closing result code) while unsolicited events are triggered, flushed and refused around it
     sh += [s for s in c11_shards(tier, prop="C01", mon="C01") if s["tag"].endswith("-run")]
     return {"shards": sh, "require": ["lines_done", "ambiguous_eq", "ambiguous_lf", "overlong", "drain_err", "notfound", "lines_hold"],
@@ -94,7 +95,7 @@ PLANS["C01"] = p_c01
 ALLC_WU = "OK,ERROR,DATA_OK,DATA_NEXT,NEXT,HOLD,HEXIT_OK,HEXIT_ERR,LIST,-2,9"
 ALLC_RT = "OK,ERROR,DATA_OK,DATA_NEXT,NEXT,HOLD,LIST"
 ALLE = "OK,ERROR,DATA_OK,DATA_NEXT,NEXT,HEXIT_OK,HEXIT_ERR,LIST,-2,9"
-T_CODES = "+W:W;+V:W,vu1rw/w,vi1ro/w,vx2rw/w;+R:R,vu1rw/r,vu1ro/r;+N:R;+U:U;+T:T,vu1rw@x/r,vi1ro/r,D=dd;+M:T||+e:R,vu1ro/r,vi1rw;+f:T,vu1ro/r,vx1wo@y,D=ee;+g:R;+o:R,o"
+T_CODES = "+W:W;+V:W,vu1rw/w,vi1ro/w,vx2rw/w;+R:R,vu1rw/r,vu1wo/r,vu1ro/r;+N:R;+U:U;+T:T,vu1rw@x/r,vi1ro/r,D=dd;+M:T,D=m\\nn\\r||+e:R,vu1ro/r,vi1rw;+f:T,vu1ro/r,vx1wo@y,D=ee;+g:R;+o:R,o"
 
 
 def c10_shards(tier, mon="C10", prop="C10"):
@@ -230,6 +231,11 @@ def c11_shards(tier, prop="C11", mon="C11"):
             # one shard per request form of the single command line (run -> command list, read -> multi-unit response, write -> hold): a partition of the space
             for sm, nm in ((1, "run"), (2, "read"), (4, "write")):
                 sh.append(duplex("duplex-r%d-sh%d-%s" % (ring, shared, nm), ring, shared, 3 if quick else 4, prop, mon, extra=dict(suffix_mask=sm)))
+    # events raised from inside the io read callback at the moment it has no byte to deliver
+    for ring in (1, 2):
+        sh.append(duplex("duplex-r%d-io-trigger" % ring, ring, ring - 1, 2, prop, mon, extra=dict(io_trigger=1, h_trigger=0, act="hold", suffix_mask=3)))
+    if quick:
+        sh.append(duplex("duplex-r3-sh0-read", 3, 0, 3, prop, mon, extra=dict(suffix_mask=2)))
     # odd-sized shared buffer, and separate buffers of different sizes (smaller budget: the layouts differ only in capacities)
     sh.append(duplex("duplex-r1-oddshared", 1, 2, 2 if quick else 3, prop, mon))
     sh.append(duplex("duplex-r2-ubuf18", 2, 0, 2 if quick else 3, prop, mon, extra=dict(ubuf=18)))
@@ -300,7 +306,7 @@ PLANS["C12"] = p_c12
 
 # ---------------------------------------------------------------- C13 queue
 
-T_Q = "H:W;K:U||+a:vu1ro;+b:R,vu1ro;+c:T,D=cc;+d;+w:vu1ro,vb12ro"
+T_Q = "H:W;K:U;+r:Rd,vu1ro||+a:vu1ro;+b:R,vu1ro;+c:T,D=cc;+d;+w:vu1ro,vb12ro"
 
 
 def c13_shards(tier, prop="C13", mon="C13"):
@@ -317,7 +323,7 @@ def c13_shards(tier, prop="C13", mon="C13"):
     for ring in (1, 2, 3):
         sh.append(mcx("queue-bounded-r%d" % ring, ring=ring, prop=prop, table=T_Q, cap=12, shared=ring % 2, name_alpha="HK", max_name=1, args_alpha="1", max_args=0, suffix_mask=5, lines=1,
                       refuse_read=1, refuse_write=1, codes_W="HOLD,OK", codes_U="OK", ecodes_R="OK,DATA_OK,DATA_NEXT,HEXIT_OK,HEXIT_ERR", ecodes_T="OK,HEXIT_ERR", max_inv=1, tok=1,
-                      ev=ev4 if ring < 3 else "+a:R,+b:R,+d:R", act="trigger,hold,queries", trig_budget=3, mon=mon))
+                      ev=(ev4 if ring < 3 else "+a:R,+b:R,+d:R") + ",+r:R", act="trigger,hold,queries", trig_budget=3, mon=mon))     # +r: registered but disabled (events do not consult the flag)
     # cat_init called again with events queued and in progress: the queue is empty afterwards
     for ring in (1, 2):
         sh.append(mcx("queue-reinit-r%d" % ring, ring=ring, prop=prop, table=T_Q, cap=12, shared=ring % 2, gen_mode="none", refuse_write=1,
@@ -363,7 +369,7 @@ PLANS["C13"] = p_c13
 
 # ---------------------------------------------------------------- C14 hold
 
-T_HOLD = "+W:W;+R:R,vu1rw;+U:U;+T:T,vu1rw||+e:R,vu1ro;+x:R;+y:T"
+T_HOLD = "+W:W;+R:R,vu1rw;+U:U;+T:T,vu1rw||+e:R,vu1ro;+x:R,o;+y:T"     # +x is only_test: the flag gates input requests, not events
 
 
 def c14_shards(tier, prop="C14", mon="C14"):
@@ -473,6 +479,8 @@ def p_c18(tier):
         if "cap6-sh0-l2d1" in s["tag"]:
             a = list(s["args"]); a[a.index("--mon") + 1] = "C18"; a[a.index("--prop") + 1] = "C18"
             sh.append({"tag": "busy-" + s["tag"], "bin": s["bin"], "args": a})
+    # every byte value at the start of a line and between lines, busy / idle probed after every call
+    sh += sw_shards("tables", "C18", tier, 3, "--family", "firstbyte", tagp="firstbyte")
     return {"shards": sh, "require": ["busy_ok_checked", "busy_busy", "hold_yes", "units_evt"],
             "technique": "explicit-state model checking: cat_is_busy and cat_is_hold are evaluated after every cat_service call of every explored path and compared with the harness' own lexers of input and output",
             "bounds": "state spaces of the duplex, hold and lines scenarios",
@@ -594,6 +602,8 @@ def p_c02(tier):
     sh += sw_shards("tables", "C02", tier, 8, "--family", "small", "--maxk", 2 if quick else 3, "--interfere", 2, tagp="tables-2objline")
     sh += sw_shards("tables", "C02", tier, 8, "--family", "lanes", "--interfere", 1, tagp="lanes-2obj")
     sh += sw_shards("tables", "C02", tier, 8, "--family", "lanes", "--interfere", 2, tagp="lanes-2objline")
+    # names of 0 .. capacity+2 characters in tiny buffers (a name may be longer than the command buffer), exact and abbreviated
+    sh += sw_shards("bounds", "C02", tier, 4, "--family", "names", tagp="names")
     # K commands sharing one prefix plus an outsider, K around 2^8, 2^9, 2^10 and 2^16, one and two groups
     sh += sw_shards("tables", "C02", tier, 26, "--family", "crowd", tagp="crowd")
     # unsolicited events (READ and TEST, with and without variables) popped at every point of the name search of exact and abbreviated names
@@ -622,7 +632,7 @@ PLANS["C02"] = p_c02
 
 def p_c04(tier):
     quick = tier == "quick"
-    sh = sw_shards("numeric", "C04", tier, 39, "--family", "all", "--maxlen", 5 if quick else 6)
+    sh = sw_shards("numeric", "C04", tier, 42, "--family", "all", "--maxlen", 5 if quick else 6)
     sh += sw_shards("numeric", "C04", tier, 32, "--family", "bounds")
     # multi-variable WRITE parsed over several cat_service calls while unsolicited events start, flush and finish in between
     for ring in (1, 2):
@@ -675,6 +685,8 @@ def p_c06(tier):
     sh += sw_shards("describe", "C06", tier, 4, "--family", "shapes", "--pairs", 0, tagp="shapes")
     sh += sw_shards("tables", "C06", tier, 8, "--family", "small", "--maxk", 2 if tier == "quick" else 3, tagp="tables")
     sh += sw_shards("args", "C06", tier, 6, "--family", "huge", tagp="huge")
+    for ring in (1, 2):
+        sh.append(duplex_overlong("args-stale-usize-r%d" % ring, ring, 1, "C06", "C06", extra=dict(cap=10, max_args=12, args_alpha="1a", lines=1, act="trigger", trig_budget=1, stale_usize=20 + ring)))
     for ring in (1, 2):
         sh.append(duplex_overlong("args-with-string-event-r%d" % ring, ring, ring - 1, "C06", "C06", extra=dict(cap=10, max_args=6, lines=2, ev="+s:R,+u:R", codes_W="OK,NEXT", h_trigger=1)))
     return {"shards": sh, "require": ["runs", "overlong", "lines_ok"],
@@ -771,7 +783,7 @@ def p_c03(tier):
     sh += sw_shards("buffers", "C03", tier, 8, "--family", "residue", asan=True, tagp="asan-residue")
     sh += sw_shards("buffers", "C03", tier, 4, "--family", "capfit", asan=True, tagp="asan-capfit")
     sh += sw_shards("numeric", "C03", tier, 16, "--family", "bounds", asan=True, tagp="asan-numeric")
-    sh += sw_shards("numeric", "C03", tier, 13, "--family", "all", "--maxlen", 4 if quick else 5, asan=True, tagp="asan-numeric")
+    sh += sw_shards("numeric", "C03", tier, 14, "--family", "all", "--maxlen", 4 if quick else 5, asan=True, tagp="asan-numeric")
     sh += sw_shards("describe", "C03", tier, 8, "--family", "vars", "--maxlen", 2, asan=True, tagp="asan-describe")
     sh += sw_shards("describe", "C03", tier, 8, "--family", "shapes", "--pairs", 1, asan=True, tagp="asan-shapes")
     sh += sw_shards("roundtrip", "C03", tier, 8, "--family", "mixes", asan=True, tagp="asan-mixes")
